@@ -926,7 +926,8 @@ func (c *Client) clockUpdate(update *MsgSrvUpdate, queueLocked bool) bool {
 
 	checksumTime := mTime
 	if c.SyncShallowClocks {
-		checksumTime = am.NewTime(checksumTime, c.trackedStateIdxs)
+		checksumTime = am.NewTime(checksumTime,
+			checksumTime.ActiveStates(c.trackedStateIdxs))
 	}
 	check := Checksum(checksumTime.Sum(nil), qTick, machTick)
 
